@@ -494,6 +494,52 @@ func genPrio(engine, prop string, r *simrt.SplitMix) *PrioSc {
 					sc.Inputs[0].Prio = 1
 					sc.H = 1
 				}
+
+				if r.Intn(2) == 0 {
+					// ... under Rate, where the zero share comes from rounding: search a set of
+					// close priorities and a quantity for which the public divider leaves some
+					// priority with nothing (an entry of 0 or no entry at all)
+					for try := 0; try < 200; try++ {
+						n := between(r, 2, 5)
+						seen := map[uint]bool{}
+
+						var ps []uint
+
+						for len(ps) < n {
+							p := uint(between(r, 1, 12))
+							if !seen[p] {
+								seen[p] = true
+								ps = append(ps, p)
+							}
+						}
+
+						hq := between(r, n, 3*n)
+
+						sorted := append([]uint(nil), ps...)
+						sort.Slice(sorted, func(i, j int) bool { return sorted[i] > sorted[j] })
+
+						d := map[uint]uint{}
+						baseDivider("rate")(sorted, uint(hq), d)
+
+						zero := false
+						for _, p := range ps {
+							if d[p] == 0 {
+								zero = true
+							}
+						}
+
+						if zero {
+							sc.Divider, sc.H = "rate", hq
+							sc.Inputs = sc.Inputs[:0]
+
+							for _, p := range ps {
+								sc.Inputs = append(sc.Inputs, PInput{Prio: p, Close: true})
+							}
+
+							break
+						}
+					}
+				}
 			}
 		}
 
